@@ -27,3 +27,13 @@ Print Assumptions C04_string_of_nat_ident.
 Theorem C04_none_is_not_a_variable : valid_var_name "none" = false /\ valid_pred_name "none" = true.
 Proof. exact (@none_is_not_a_variable_proof). Qed.
 Print Assumptions C04_none_is_not_a_variable.
+
+From NGO Require Import Syntax.Ast Model.Binding Model.Projection Link.ProjectionSpec.
+
+Theorem C04_projection_new_rule_safe : forall (new rest : list bodyelem) (stm : stmt) (t : list string), good_split new rest stm = Ok (Some t) -> exists bound : vset, collect_binding_information_body new None = Ok (bound, nil).
+Proof. exact (@good_split_new_safe_proof). Qed.
+Print Assumptions C04_projection_new_rule_safe.
+
+Theorem C04_projection_rest_rule_legal : forall (new rest : list bodyelem) (stm : stmt) (t : list string), good_split new rest stm = Ok (Some t) -> exists bound : vset, collect_binding_information_body rest (Some t) = Ok (bound, nil).
+Proof. exact (@good_split_rest_legal_proof). Qed.
+Print Assumptions C04_projection_rest_rule_legal.
